@@ -168,7 +168,7 @@ func DoFullUnicodeCaseFolding
 func ReplaceSpaces
   ensures fresh(result) || sameslice(result, source)
   modifies nothing
-  loop 0 inv ret == nil || fresh(ret)
+  loop 0 inv (ret == nil || fresh(ret)) && -1 <= start && start < len(source)
 
 func EscapeHTML
   uses htmlEscapeTableFacts
